@@ -161,6 +161,12 @@ def cells(tier, seed):
             for grid in GRIDS[d]:
                 for scale in ("inner", "outer"):
                     out.append({"what": "kiss-strategy", "settings": st, "n": n, "d": d, "m": m, "grid": grid, "scale": scale})
+    for st in (["default"] if not thorough else ["default", "cg", "fpv", "notoep"]):
+        for n, d, m in lattice:
+            for grid in GRIDS[d][:2]:
+                for xs in ("inside", "outside"):
+                    out.append({"what": "kiss-strategy", "settings": st, "n": n, "d": d, "m": m, "grid": grid, "scale": "outer", "bounds": "auto",
+                                "xs": xs})
     for st in settings_combos(["cg", "fpv", "fps", "nodetach", "nocorr"], tier):
         for n, d, m in lattice:
             for M in (1, 3):
@@ -255,6 +261,8 @@ def feats_of(cell):
     for k, v in cell.items():
         f[k] = "x".join(map(str, v)) if isinstance(v, list) else v
     f.setdefault("settings", "default")
+    if "grid" in cell:
+        f["square"] = len(set(cell["grid"])) == 1
     return f
 
 
@@ -428,14 +436,17 @@ def run_kisskernel(cell, g, fails):
 
                 one("kiss-" + mode, x1, x2, detail="K(x1,x2) != W1 K_uu W2^T (W = Keys cubic weights, K_uu = base kernel on the grid points "
                     "in W's order)")
+                nb = len(fails)
                 ugrid, Ksq = one("kiss-" + mode + "-square", x1, x1)
+                sq_ok = len(fails) == nb
                 one("kiss-" + mode + "-diag", x1, x1, diag=True)
                 ops += 3
                 # the same with the library's own sparse W (separates a wrong W from a wrong K_uu / assembly)
                 idx, val = Interpolation().interpolate(ugrid, x1)
                 Wl = ST.scatter_weights(idx, val, G)
                 U = ST.grid_points(ugrid, "lex")
-                fails.check_close("kiss-libW", Ksq, Wl @ kref(U, U) @ Wl.mT, *tol, "K(x,x) != W K_uu W^T with the library's own W")
+                if sq_ok:  # otherwise K_uu is already known to be wrong
+                    fails.check_close("kiss-libW", Ksq, Wl @ kref(U, U) @ Wl.mT, *tol, "K(x,x) != W K_uu W^T with the library's own W")
     return ops
 
 
@@ -651,9 +662,31 @@ def compare_pred(fails, sub, out, mean, cov, tol, detail=""):
         fails.check_close(sub + "-variance", out.variance, cov.diagonal(), *tol, detail)
 
 
+def predict_twice(fails, sub, build, Xs, expect_class, want, tol, detail, st, grad):
+    """fresh model, eval-mode prediction (first call builds the strategy, second call reads its caches); returns the model"""
+    model = None
+    with apply_settings(st), (contextlib.nullcontext() if grad else torch.no_grad()):
+        with fails.guard(sub):
+            model, lik = build()
+            out = model(Xs)
+            sname = type(model.prediction_strategy).__name__
+            if sname != expect_class:
+                fails.add(sub + "-class", f"prediction strategy is {sname}, expected {expect_class}")
+            compare_pred(fails, sub, out, *want, tol, detail)
+            compare_pred(fails, sub + "-second-call", model(Xs), *want, tol, "second call on the cached strategy")
+    return model
+
+
 def run_kiss_strategy(cell, g, fails, seed):
     st, n, d, m, grid, scale = cell["settings"], cell["n"], cell["d"], cell["m"], cell["grid"], cell["scale"]
+    bounds, xs = cell.get("bounds", "given"), cell.get("xs", "any")
     X, y, Xs = util.rand(g, n, d), util.randn(g, n), util.rand(g, m, d)
+    if xs == "inside":  # every test point inside the per-dimension range of the training inputs
+        lo, hi = X.min(0)[0], X.max(0)[0]
+        Xs = lo + (hi - lo) * (0.05 + 0.9 * Xs)
+    elif xs == "outside":  # one test point beyond the training range in every dimension
+        Xs = Xs.clone()
+        Xs[0] = X.max(0)[0] + 0.25
     Xf, yf = util.rand(g, 2, d), util.randn(g, 2)
     Xf2, yf2 = util.rand(g, 1, d), util.randn(g, 1)
     s2 = 0.05 + 0.2 * float(util.rand(g, 1))
@@ -663,12 +696,13 @@ def run_kiss_strategy(cell, g, fails, seed):
     def build(Xt=X, yt=y):
         lik = gpytorch.likelihoods.GaussianLikelihood()
         lik.noise = s2
-        kern, _ = make_kiss_kernel(d, grid, d > 1, scale, "given", os_)
+        kern, _ = make_kiss_kernel(d, grid, d > 1, scale, bounds, os_)
         return GP(Xt, yt, lik, kern, const).eval(), lik.eval()
 
     def oracle(Xt, yt):
         twin, _ = build(Xt, yt)
-        with torch.no_grad():
+        # the approximate matrix depends on use_toeplitz at rounding level of the float32 grid: take it under the cell's setting
+        with torch.no_grad(), S.use_toeplitz("notoep" not in st.split("+")):
             Kall = twin.covar_module(torch.cat([Xt, Xs])).to_dense()
         nt = Xt.shape[0]
         c = torch.full((nt,), const, dtype=F64)
@@ -676,23 +710,12 @@ def run_kiss_strategy(cell, g, fails, seed):
 
     tol = tol_for(st, "kiss-strategy")
     ftol = tol_for(st, "kiss-fantasy")
-    ops = 0
-    model = None
-    with apply_settings(st), torch.no_grad():
-        with fails.guard("kiss-strategy"):
-            model, lik = build()
-            util.own_rng(seed, "kiss|" + util.jdump(cell))
-            out = model(Xs)
-            ops += 1
-            sname = type(model.prediction_strategy).__name__
-            if sname != "InterpolatedPredictionStrategy":
-                fails.add("kiss-strategy-class", f"prediction strategy is {sname}")
-            compare_pred(fails, "kiss-strategy", out, *oracle(X, y), tol,
-                         "model(x*) != dense conditional on kernel(X_all).to_dense()")
-            out2 = model(Xs)  # cached strategy, second call
-            compare_pred(fails, "kiss-strategy-second-call", out2, *oracle(X, y), tol)
-            ops += 1
-    if model is None:
+    msg = "model(x*) != dense conditional on kernel(X_all).to_dense()"
+    util.own_rng(seed, "kiss|" + util.jdump(cell))
+    predict_twice(fails, "kiss-strategy-grad", build, Xs, "InterpolatedPredictionStrategy", oracle(X, y), tol, msg + " (autograd enabled)", st, True)
+    model = predict_twice(fails, "kiss-strategy", build, Xs, "InterpolatedPredictionStrategy", oracle(X, y), tol, msg, st, False)
+    ops = 4
+    if model is None or bounds == "auto":
         return ops
     ffeat = dict(feats_of(cell), what="kiss-fantasy")
     nb = len(fails)
@@ -718,7 +741,7 @@ def run_kiss_strategy(cell, g, fails, seed):
 
 def run_sgpr_strategy(cell, g, fails, seed):
     st, n, d, m, M = cell["settings"], cell["n"], cell["d"], cell["m"], cell["M"]
-    X, y, Z, s2, os_, const, build = make_sgpr(n, d, M, g)
+    X, y, Z, s2, os_, const, build0 = make_sgpr(n, d, M, g)
     Xs = util.rand(g, m, d)
     ref = base_ref(d, d > 1, outputscale=os_)
     tol = tol_for(st)
@@ -729,26 +752,24 @@ def run_sgpr_strategy(cell, g, fails, seed):
     if corr:
         td = (ref(X, X).diagonal() - ST.nystrom(Kxz, Kzz, Kxz.mT).diagonal()).clamp_min(0)
     mean, cov = ST.sgpr_predict(y, cx, cs, Kxz, Ksz, Kzz, Kss, s2, td)
-    ops = 0
-    with apply_settings(st), torch.no_grad():
-        with fails.guard("sgpr-strategy"):
-            model, lik = build()
-            model.eval()
-            lik.eval()
-            out = model(Xs)
-            ops += 1
-            sname = type(model.prediction_strategy).__name__
-            if sname != "SGPRPredictionStrategy":
-                fails.add("sgpr-strategy-class", f"prediction strategy is {sname}")
-            compare_pred(fails, "sgpr-strategy", out, mean, cov, tol, "model(x*) != SGPR predictive equations")
-            compare_pred(fails, "sgpr-strategy-second-call", model(Xs), mean, cov, tol)
-            ops += 1
-            if not corr:
-                mt, ct = ST.sgpr_predict_titsias(y, cx, cs, Kxz, Ksz, Kzz, Kss, s2)
-                compare_pred(fails, "sgpr-strategy-titsias", out, mt, ct, (1e-7, 1e-7) if tol == TOL else tol, "Titsias 2009 eq. (6) literally")
-            # observation-level prediction adds the noise once
-            fails.check_close("sgpr-strategy-likelihood", lik(out).covariance_matrix, cov + s2 * torch.eye(m, dtype=F64), *tol)
-    return ops
+
+    def build():
+        model, lik = build0()
+        return model.eval(), lik.eval()
+
+    msg = "model(x*) != SGPR predictive equations"
+    predict_twice(fails, "sgpr-strategy-grad", build, Xs, "SGPRPredictionStrategy", (mean, cov), tol, msg + " (autograd enabled)", st, True)
+    model = predict_twice(fails, "sgpr-strategy", build, Xs, "SGPRPredictionStrategy", (mean, cov), tol, msg, st, False)
+    if model is not None:
+        with apply_settings(st), torch.no_grad():
+            with fails.guard("sgpr-strategy-extra"):
+                out = model(Xs)
+                if not corr:
+                    mt, ct = ST.sgpr_predict_titsias(y, cx, cs, Kxz, Ksz, Kzz, Kss, s2)
+                    compare_pred(fails, "sgpr-strategy-titsias", out, mt, ct, (1e-7, 1e-7) if tol == TOL else tol, "Titsias 2009 eq. (6) literally")
+                # observation-level prediction adds the noise once
+                fails.check_close("sgpr-strategy-likelihood", model.likelihood(out).covariance_matrix, cov + s2 * torch.eye(m, dtype=F64), *tol)
+    return 5
 
 
 def run_rff_strategy(cell, g, fails, seed):
@@ -775,23 +796,14 @@ def run_rff_strategy(cell, g, fails, seed):
     with torch.no_grad():
         Kall = twin.covar_module(torch.cat([X, Xs])).to_dense()
     cx, cs = torch.full((n,), const, dtype=F64), torch.full((m,), const, dtype=F64)
-    mean, cov = dense.conditional(Kall[:n, :n] + s2 * torch.eye(n, dtype=F64), Kall[n:, :n], Kall[n:, n:], cx, cs, y)
+    want = dense.conditional(Kall[:n, :n] + s2 * torch.eye(n, dtype=F64), Kall[n:, :n], Kall[n:, n:], cx, cs, y)
     # the approximate matrix itself, independently (Phi Phi^T from the stored weights)
     Phi = ST.rff_features(torch.cat([X, Xs]), Wt, torch.tensor(LS[:d], dtype=F64))
-    ops = 0
-    with apply_settings(st), torch.no_grad():
-        fails.check_close("rff-strategy-matrix", Kall, (os_ if scale == "outer" else 1.0) * Phi @ Phi.mT, *TOL, "kernel(X_all) != c Phi Phi^T")
-        with fails.guard("rff-strategy"):
-            model, lik = build()
-            out = model(Xs)
-            ops += 1
-            sname = type(model.prediction_strategy).__name__
-            if sname != "RFFPredictionStrategy":
-                fails.add("rff-strategy-class", f"prediction strategy is {sname}")
-            compare_pred(fails, "rff-strategy", out, mean, cov, tol, "model(x*) != dense conditional on kernel(X_all).to_dense()")
-            compare_pred(fails, "rff-strategy-second-call", model(Xs), mean, cov, tol)
-            ops += 1
-    return ops
+    fails.check_close("rff-strategy-matrix", Kall, (os_ if scale == "outer" else 1.0) * Phi @ Phi.mT, *TOL, "kernel(X_all) != c Phi Phi^T")
+    msg = "model(x*) != dense conditional on kernel(X_all).to_dense()"
+    predict_twice(fails, "rff-strategy-grad", build, Xs, "RFFPredictionStrategy", want, tol, msg + " (autograd enabled)", st, True)
+    predict_twice(fails, "rff-strategy", build, Xs, "RFFPredictionStrategy", want, tol, msg, st, False)
+    return 4
 
 
 # =================================================================================================================== dispatch
